@@ -126,6 +126,59 @@ def _shared_arm(b, sw, s, src_enum, src_is_int):
     return False
 
 
+def app_exception_fields(rep, rule, prog, cg):
+    """encode and size of TApplicationException list the standard fields (1: string message, 2: i32 type) in the same,
+    standard order and unconditionally"""
+    # ---- R03.e TApplicationException
+    app = {b.name: b for b in prog.bodies.values() if b.crate == 'pilota' and (b.impl_self or '').endswith('ApplicationException') and (b.impl_trait or '').endswith('thrift::Message')}
+    want = [('Binary', 1), ('I32', 2)]
+    own_helper = lambda cs, callee: callee.vis != 'Public' and (callee.impl_self or '').endswith('ApplicationException')
+    for name, callee, id_some in (('encode', 'write_field_begin', False), ('size', 'field_begin_len', True)):
+        b = app.get(name)
+        if b is not None:
+            b = mirlib.inline_calls(b, own_helper)      # private per-field helpers are part of the method
+        key = rule + '|ApplicationException::%s' % name
+        if b is None:
+            rep.anchor_missing(rule, 'ApplicationException::' + name)
+            continue
+        got = []
+        for cs in b.calls():
+            if cs.name == callee:
+                a = cs.args()
+                ty = a[1]
+                ty = ty[1].split('::')[-1] if ty[0] == 'agg' else show(ty)
+                idv = a[2]
+                if idv[0] == 'agg' and idv[2]:
+                    idv = idv[2][0]
+                got.append((ty, idv[1] if idv[0] == 'const' else show(idv)))
+        # both fields are written for every value: no Ok path avoids either header call
+        import skippers as _sk
+        cond_field = None
+        oks = set(_sk._ok_exit_blocks(b))
+        succ = b.cfg[0]
+        for cs in b.calls():
+            if cs.name != callee:
+                continue
+            seen, stk = {0}, [0]
+            while stk:
+                x = stk.pop()
+                if x == cs.bb:
+                    continue
+                for y in succ[x]:
+                    if y not in seen:
+                        seen.add(y)
+                        stk.append(y)
+            if (seen - {cs.bb}) & oks and 0 != cs.bb:
+                cond_field = cs
+        if got == want and cond_field is not None:
+            rep.bad(rule, key, cond_field.loc(), 'TApplicationException %s writes a field only under a condition: the standard struct carries both `1: string message` and `2: i32 type` for every value (a peer would read "message absent" for an empty message)' % name)
+        elif got == want:
+            rep.ok(rule, key, 'fields (1: Binary message, 2: I32 type)', b.loc())
+        else:
+            rep.bad(rule, key, b.loc(), 'TApplicationException %s writes fields %s; the standard struct is %s' % (name, got, want))
+    return app, own_helper
+
+
 def ttype_byte_conversion(rep, rule, prog):
     """u8 -> TType: the lookup table holds Some(code i) exactly at the defined codes and the conversion consults it for every code
     (writers emit `ttype as u8`; this is the inverse the readers use)"""
@@ -371,53 +424,7 @@ def run(ctx):
                 rep.ok('R03.d', key, 'false iff the byte is 0', b.loc())
             else:
                 rep.bad('R03.d', key, b.loc(), '%s %s read_bool must treat every non-zero byte as true (found %s): bytes 0x80..0xFF written by other implementations are legal' % (fname, label, conds))
-    # ---- R03.e TApplicationException
-    app = {b.name: b for b in prog.bodies.values() if b.crate == 'pilota' and (b.impl_self or '').endswith('ApplicationException') and (b.impl_trait or '').endswith('thrift::Message')}
-    want = [('Binary', 1), ('I32', 2)]
-    own_helper = lambda cs, callee: callee.vis != 'Public' and (callee.impl_self or '').endswith('ApplicationException')
-    for name, callee, id_some in (('encode', 'write_field_begin', False), ('size', 'field_begin_len', True)):
-        b = app.get(name)
-        if b is not None:
-            b = mirlib.inline_calls(b, own_helper)      # private per-field helpers are part of the method
-        key = 'R03.e|ApplicationException::%s' % name
-        if b is None:
-            rep.anchor_missing('R03.e', 'ApplicationException::' + name)
-            continue
-        got = []
-        for cs in b.calls():
-            if cs.name == callee:
-                a = cs.args()
-                ty = a[1]
-                ty = ty[1].split('::')[-1] if ty[0] == 'agg' else show(ty)
-                idv = a[2]
-                if idv[0] == 'agg' and idv[2]:
-                    idv = idv[2][0]
-                got.append((ty, idv[1] if idv[0] == 'const' else show(idv)))
-        # both fields are written for every value: no Ok path avoids either header call
-        import skippers as _sk
-        cond_field = None
-        oks = set(_sk._ok_exit_blocks(b))
-        succ = b.cfg[0]
-        for cs in b.calls():
-            if cs.name != callee:
-                continue
-            seen, stk = {0}, [0]
-            while stk:
-                x = stk.pop()
-                if x == cs.bb:
-                    continue
-                for y in succ[x]:
-                    if y not in seen:
-                        seen.add(y)
-                        stk.append(y)
-            if (seen - {cs.bb}) & oks and 0 != cs.bb:
-                cond_field = cs
-        if got == want and cond_field is not None:
-            rep.bad('R03.e', key, cond_field.loc(), 'TApplicationException %s writes a field only under a condition: the standard struct carries both `1: string message` and `2: i32 type` for every value (a peer would read "message absent" for an empty message)' % name)
-        elif got == want:
-            rep.ok('R03.e', key, 'fields (1: Binary message, 2: I32 type)', b.loc())
-        else:
-            rep.bad('R03.e', key, b.loc(), 'TApplicationException %s writes fields %s; the standard struct is %s' % (name, got, want))
+    app, own_helper = app_exception_fields(rep, 'R03.e', prog, cg)
     for name in ('decode', 'decode_async'):
         b = app.get(name)
         key = 'R03.e|ApplicationException::%s' % name
